@@ -95,10 +95,26 @@ def one(rng, k=None, B=None, big=False):
     return conn_case(B, rng.choice([1, 50]), segs, scripts, rs, ws, vect), tags
 
 
+def long_record_case(rng):
+    """request 1 carries ONE long unpadded Stdin record; its handler reads a little and returns, so Request::close skips the rest
+    with 1-byte transport reads (every amount of outstanding payload occurs when it asks for the record boundary); request 2
+    must then be served"""
+    B = rng.choice([64, 128])
+    P = rng.choice([300, 520, 600, 777])
+    w1 = flat(minimal_preamble(1, 1, flags=1) + [record(STDIN, 1, [rng.randrange(256) for _ in range(P)], 0), record(STDIN, 1, [], 0)])
+    w2, m2 = gen_request(rng, 2, False, B)
+    segs = [(0, 0, w1), (1, 0, w2)]
+    scripts = [[("read", rng.choice([1, 7, 30])), ("ret", 0, 0)], [("readall",), ("ret", 0, 1)]]
+    rs = [10 ** 6] * rng.randrange(0, 3) + [1] * (P + 40)
+    return conn_case(B, 1, segs, scripts, rs, [], rng.choice([0, 1])), ["conn", "k2", "rscript", "long-record-early-return"]
+
+
 def gen_cases(rng, tier):
     quick = tier == "quick"
     for _ in range(900 if quick else 60000):
         yield one(rng)
+    for _ in range(8 if quick else 300):
+        yield long_record_case(rng)
     for _ in range(3 if quick else 100):
         c, t = one(rng, k=1, B=rng.choice([64, 8192]), big=True)
         yield c, t + ["big-write"]
@@ -109,7 +125,7 @@ def nontrivial(line, tags):
 
 
 def min_classes(tier):
-    return {"k2": 100, "k3": 100, "k4": 100, "rscript": 300, "wscript": 300, "vectored": 200, "first-slice": 200, "big-write": 3}
+    return {"k2": 100, "k3": 100, "k4": 100, "rscript": 300, "wscript": 300, "vectored": 200, "first-slice": 200, "big-write": 3, "long-record-early-return": 8}
 
 
 # ---------------------------------------------------------------------------------------------
